@@ -667,6 +667,59 @@ def response_side_documents(chk):
         with warnings.catch_warnings():
             warnings.simplefilter("ignore")
             op = schemathesis.openapi.from_path(os.path.join(d, "root.json"))["/x"]["GET"]
+        # the same two files, validated from two threads at once (engine workers do that): each thread has its own operation,
+        # whose schema lives in its own file; a verdict must not depend on what the other thread is resolving
+        import threading
+        root2 = json.loads(json.dumps(root))
+        root2["paths"]["/y"] = {"get": {"responses": {"200": {"description": "d", "content": {"application/json": {"schema": {
+            "$ref": "customer.json#/components/schemas/Customer"}}}}}}}
+        root2["paths"]["/x"]["get"]["responses"]["200"]["content"]["application/json"]["schema"] = {"$ref": "#/components/schemas/Address"}
+        with open(os.path.join(d, "root2.json"), "w") as f:
+            json.dump(root2, f)
+        with warnings.catch_warnings():
+            warnings.simplefilter("ignore")
+            sch2 = schemathesis.openapi.from_path(os.path.join(d, "root2.json"))
+        opx, opy = sch2["/x"]["GET"], sch2["/y"]["GET"]
+        plan = {"x": (opx, [({"street": "s"}, False), ({"city": "c"}, True)]),
+                "y": (opy, [({"address": {"city": "c"}}, False), ({"address": {"street": "s"}}, True)])}
+        wrong, n_rounds = [], 400 if not chk.thorough else 3000
+        barrier = threading.Barrier(2)
+
+        def work(tag):
+            op_, items = plan[tag]
+            barrier.wait()
+            for i in range(n_rounds):
+                body_, dev = items[i % 2]
+                resp_ = real_response({"status": 200, "headers": {"Content-Type": "application/json"}, "content": json.dumps(body_).encode()})
+                try:
+                    op_.Case().validate_response(resp_, checks=[oas_checks.response_schema_conformance])
+                    failed = False
+                except BaseException as e:  # noqa: BLE001 - FailureGroup
+                    if isinstance(e, (KeyboardInterrupt, SystemExit)):
+                        raise
+                    failed = True
+                if failed != dev:
+                    wrong.append((tag, body_, failed))
+        import sys as _sys
+        ts = [threading.Thread(target=work, args=(t,)) for t in ("x", "y")]
+        old_interval = _sys.getswitchinterval()
+        _sys.setswitchinterval(1e-5)       # let the two validations interleave at (almost) every bytecode boundary
+        try:
+            for t in ts:
+                t.start()
+            for t in ts:
+                t.join()
+        finally:
+            _sys.setswitchinterval(old_interval)
+        chk.case("response-side-conversion", key=["multi-file-two-threads", n_rounds], nontrivial=True,
+                 sample={"flavour": "multi-file, two threads", "validations": 2 * n_rounds, "wrong_verdicts": len(wrong)})
+        chk.feature("response-side-conversion:multi-file-two-threads")
+        if wrong:
+            tag, body_, failed = wrong[0]
+            chk.violation("C04:response_schema_conformance:verdict-depends-on-what-another-thread-validates",
+                          f"{len(wrong)} of {2 * n_rounds} validations run from two threads on a two-file description gave the wrong "
+                          f"verdict; first: GET /{tag} body {body_} {'reported' if failed else 'passed'}",
+                          {"root.json": root2, "customer.json": customer, "first_wrong": [tag, body_, failed], "wrong": len(wrong)})
         for billing, address, deviates in [({"street": "s"}, {"city": "c"}, False), ({"street": "s"}, {"street": "s"}, True),
                                            ({"city": "c"}, {"city": "c"}, True), ({"city": "c"}, {"street": "s"}, True)]:
             body = json.dumps({"billing": billing, "customer": {"address": address}}).encode()
